@@ -98,6 +98,12 @@ func (share *Share) Verify(ec elliptic.Curve, threshold int, vs Vs) bool {
 	}
 	var err error
 	modQ := common.ModInt(ec.Params().N)
+	// a share or an id equal to 0 modulo the group order cannot be checked (0*G is not representable)
+	if share.ID == nil || share.Share == nil ||
+		new(big.Int).Mod(share.ID, ec.Params().N).Sign() == 0 ||
+		new(big.Int).Mod(share.Share, ec.Params().N).Sign() == 0 {
+		return false
+	}
 	v, t := vs[0], one // YRO : we need to have our accumulator outside of the loop
 	for j := 1; j <= threshold; j++ {
 		// t = k_i^j
@@ -134,6 +140,9 @@ func (shares Shares) ReConstruct(ec elliptic.Curve) (secret *big.Int, err error)
 			}
 			sub := modN.Sub(xs[j], share.ID)
 			subInv := modN.ModInverse(sub)
+			if subInv == nil {
+				return nil, fmt.Errorf("duplicate share ids: %v", share.ID)
+			}
 			div := modN.Mul(xs[j], subInv)
 			times = modN.Mul(times, div)
 		}
